@@ -442,6 +442,8 @@ class Report:
     self.instances.append((rule, site, 'holds', facts, nontrivial))
 
   def violation(self, rule, site, msg, facts=None, witness=None, line=None):
+    if any(v['rule'] == rule and v['site'] == site for v in self.violations):
+      return   # one report per (rule, construct)
     self.counts[rule] = self.counts.get(rule, 0) + 1
     self.instances.append((rule, site, 'VIOLATION', facts, True))
     self.violations.append(dict(rule=rule, site=site, msg=msg, facts=facts,
